@@ -627,6 +627,36 @@ Definition all_hold (l : list (string * bool)) : bool := forallb snd l.
 Definition violated (l : list (string * bool)) : list string :=
   map fst (filter (fun p => negb (snd p)) l).
 
+(* ---------- which constraint of the documented table each check belongs to ---------- *)
+Definition base_check_rows (e : env) (b : braw) : list (string * option err) :=
+  combine ["schema-source"; "schema-path-exists"; "headers-resolvable"] (base_checks e b).
+Definition client_check_rows (e : env) (r : craw) : list (string * option err) :=
+  let '(bp, bn) := base_client_of e r in
+  [ ("queries-path-given",
+     if String.eqb (r_queries_path r) "" && negb (b_custom_ops (r_base r))
+     then Some (mkerr MissingConfiguration msg_missing_fields) else None) ]
+  ++ base_check_rows e (r_base r)
+  ++ [ ("include-comments", if valid_comment (r_comments r) then None
+                            else Some (mkerr InvalidConfiguration (msg_comments (r_comments r))));
+       ("queries-path-exists", assert_path_exists e (r_queries_path r));
+       ("target-package-name", assert_identifier (r_pkg_name r));
+       ("target-package-path-dir", assert_path_is_valid_directory e (pkg_path_of e r));
+       ("client-name", assert_identifier (r_client_name r));
+       ("client-file-name", assert_identifier (r_client_file r));
+       ("base-client-name", assert_identifier bn);
+       ("base-client-file", assert_path_exists e bp);
+       ("base-client-file", assert_path_is_valid_file e bp);
+       ("base-client-class", if p_is_file e bp then assert_class_is_defined_in_file e bp bn else None);
+       ("enums-module-name", assert_identifier (r_enums r));
+       ("input-types-module-name", assert_identifier (r_inputs r));
+       ("fragments-module-name", assert_identifier (r_fragments r)) ]
+  ++ map (fun p => ("files-to-include", assert_path_is_valid_file e p)) (r_files r).
+Definition schema_check_rows (e : env) (r : graw) : list (string * option err) :=
+  base_check_rows e (gr_base r)
+  ++ combine ["target-file-type"; "schema-variable-name"; "type-map-variable-name";
+              "schema-variable-not-reserved"; "type-map-variable-not-reserved"; "variable-names-differ"]
+             (schema_asserts r).
+
 (* ---------- sexp interface ---------- *)
 Definition dPkind (e : sexp) : option pkind :=
   match e with
